@@ -14,6 +14,8 @@ package reclaim
 //@ func getOrderedVictimsQueue$1
 //@   props C06
 //@   requires ssn != nil && ssn.ClusterInfo != nil && reclaimer != nil
+//@   # registered plugin filters are real functions (AddReclaimVictimFilterFn appends plugin methods only)
+//@   requires forall i int :: 0 <= i && i < len(ssn.ReclaimVictimFilterFns) ==> ssn.ReclaimVictimFilterFns[i] != nil
 //@   requires forall k in ssn.ClusterInfo.PodGroupInfos :: podgroup_info.allTasksOK(ssn.ClusterInfo.PodGroupInfos[k]) && podgroup_info.setsOK(ssn.ClusterInfo.PodGroupInfos[k])
 //@   requires forall q in ssn.ClusterInfo.Queues :: ssn.ClusterInfo.Queues[q] != nil
 //@   modifies family(utils.pushed(reclaimer)), family(utils.famJO().queueNodes[*]), family(utils.famJO().rootNodes), family(utils.famJO().rootNodes.queue), family(utils.famJO().rootNodes.maxQueueSize), family(utils.famJO().queueNodes[""].queue), family(utils.famJO().queueNodes[""].children), family(utils.famJO().queueNodes[""].needsReorder), family(utils.famJO().queueNodes[""].parent), family(utils.famJO().queueNodes[""].isLeaf), family(utils.famJO().rootNodes.queue.items[*])
